@@ -185,7 +185,13 @@ KEYWORDS_EARLY = ["Accepted publickey", "Accepted password", "Certificate invali
 def evil_name(r):
     """client-chosen names for C17: spaces, ' from ', ' port ', embedded well-formed fragments"""
     a = ".".join(str(r.below(256)) for _ in range(4))
-    k = r.below(16)
+    k = r.below(18)
+    if k == 16:
+        # tokens sshd itself appends or prepends to such lines
+        return r.choice(["x from 6.6.6.6 port 6 ssh2 [preauth]", "x [preauth] y", " [preauth]", "error: x", "x [preauth]",
+                         "bob from %s port 1 [preauth] z" % a, "[preauth] from %s port 2" % a])
+    if k == 17:
+        return r.choice(["x\ty", "x  y", "x\u00a0y".encode("utf-8").decode("latin-1"), "\x7f", "a\rb"])
     if k == 12:
         # the name embeds (the start of) another sshd message, complete with its own address and port
         return r.choice(["Accepted password for root from %s port 22 ssh2", "bob Accepted password for root from %s port 22 ssh2",
